@@ -62,8 +62,22 @@ func repoDir() string {
 }
 
 // overlayFor builds the overlay map injecting harness sources for the given repo-relative package dirs.
+// overlayDeps: harness packages whose sources reference helpers overlaid into another repo package.
+var overlayDeps = map[string][]string{"pkg/dhcp": {"pkg/ebpf"}}
+
 func overlayFor(pkgDirs []string, native bool) (map[string][]byte, error) {
 	ov := map[string][]byte{}
+	seen := map[string]bool{}
+	var all []string
+	for _, pd := range pkgDirs {
+		for _, d := range append([]string{pd}, overlayDeps[pd]...) {
+			if !seen[d] {
+				seen[d] = true
+				all = append(all, d)
+			}
+		}
+	}
+	pkgDirs = all
 	api, err := os.ReadFile(filepath.Join(harnessDir(), "harness", "api.go.tmpl"))
 	if err != nil {
 		return nil, err
